@@ -324,6 +324,21 @@ fn subcommand(args: &[String]) -> Option<i32> {
     if args.first().map(|s| s.as_str()) == Some("reduce") {
         return Some(reduce_cmd(args));
     }
+    if args.first().map(|s| s.as_str()) == Some("forc-test") {
+        // `swverif forc-test <package dir> [debug|release]`: run a package's unit tests with the real
+        // forc-test flow and print every test's verdict (used to confirm seeded-change demonstrations)
+        let profile = if args.get(2).map(|s| s.as_str()) == Some("release") { Profile::Release } else { Profile::Debug };
+        match run_unit_tests(std::path::Path::new(&args[1]), profile, 1, None) {
+            Ok(r) => {
+                for t in &r.tests {
+                    println!("{} {} ({})", if t.passed { "PASS" } else { "FAIL" }, t.name, match &t.outcome { Outcome::Revert(c) => format!("revert {c:#x}"), Outcome::Panic(p) => format!("panic {p}"), _ => "returned".into() });
+                }
+                println!("{} passed, {} failed", r.tests.iter().filter(|t| t.passed).count(), r.tests.iter().filter(|t| !t.passed).count());
+            }
+            Err(e) => println!("build failed: {e}"),
+        }
+        return Some(0);
+    }
     if args.first().map(|s| s.as_str()) == Some("compile-one") {
         // `swverif compile-one <debug|release> <file.sw>`: compile one script (child of the hang reducer)
         let profile = if args[1] == "release" { Profile::Release } else { Profile::Debug };
